@@ -3,8 +3,8 @@
    the reader index arithmetic (ReadExodusMesh.py), tied to /repo by exact comparison on every run (tools/props/c13.py). *)
 From Coq Require Import List Arith ZArith Reals.
 From OV.base Require Import Num.
-From OV.model Require Import M_C13_Struct M_C13_Edges M_C13_Combine M_C13_Read.
-From OV.proofs Require Import L_C13_Struct L_C13_Edges L_C13_Combine L_C13_Read L_C13_Top.
+From OV.model Require Import M_C13_Struct M_C13_Edges M_C13_Combine M_C13_Read M_C13_Elevate.
+From OV.proofs Require Import L_C13_Struct L_C13_Edges L_C13_Combine L_C13_Read L_C13_Top L_C13_Elevate.
 Import ListNotations.
 
 (* ---- structured generator: in-range connectivity using every node, counter-clockwise elements of positive area,
@@ -112,9 +112,21 @@ Proof.
   exact permute_tri6_faces.
 Qed.
 
-(* NOT PROVED: C13_elevate (order elevation: connectivity onto 0..nV+nE(p-1)+nT*nInt-1 without duplicates, matching edge
-   node order between neighbours, affine placement).  No theorem about create_higher_order_mesh_from_simplex_mesh is
-   claimed; the harness only evaluates the validity predicate on the implementation's elevated meshes (tests, not proof). *)
+(* ---- order elevation, numbering only: the ids handed to the slots (vertex), (edge e, k < p-1), (element t, k < nInt) are
+        exactly 0 .. nV + nE(p-1) + nT*nInt - 1, each once (no duplicate, no unused id), and the right element receives the
+        edge's ids in reversed order *)
+Theorem C13_elevate_numbering_partial : forall nV nE nT m nI,
+  all_ids nV nE nT m nI = seq 0 (nV + nE * m + nT * nI)
+  /\ NoDup (all_ids nV nE nT m nI)
+  /\ (forall i, In i (all_ids nV nE nT m nI) <-> i < nV + nE * m + nT * nI)
+  /\ (forall e, edge_ids_right nV m e = rev (edge_ids nV m e) /\ length (edge_ids nV m e) = m).
+Proof.
+  intros. split; [apply all_ids_seq |]. split; [apply all_ids_nodup |]. split; [apply all_ids_nodup | intros; apply edge_ids_right_rev].
+Qed.
+(* NOT PROVED: the rest of C13_elevate -- that create_higher_order_mesh_from_simplex_mesh writes every slot into the
+   connectivity at the reference element's vertex/face/interior positions (so that the connectivity is onto and neighbours
+   share edge nodes in matching order) and that node coordinates are the affine images of the reference nodes (needs the
+   Lobatto symmetry certificate).  These are only evaluated on the implementation's elevated meshes (tests, not proof). *)
 
 Example C13_nonvacuous : exists (xs ys : nat -> R),
   (forall i, S i < 3 -> (xs i < xs (S i))%R) /\ (forall j, S j < 4 -> (ys j < ys (S j))%R)
